@@ -226,6 +226,7 @@ def make_symbol_harness(prog, n):
     def harness(it):
         text, chars = textgen.sym_text(it, n, non_ascii=True)
         it.ghost['chars'] = chars
+        it.ghost['opaque_ratio_literals'] = True       # only the KIND of the datum matters here (a number is not a symbol)
         pr = it.call(PT, [text])
         if pr.var != 0: raise Infeasible()
         cell, rest = pr.f[0].f
